@@ -30,30 +30,39 @@ func c05R8(h H) {
 			p, isP := callOf(c).Args[0].(*ssa.Parameter)
 			r.Check(isP && p.Type().String() == "string", "R8", "proxy.hostByHashing/hash-of-key", c.Pos(), "the first slot is computed from the key parameter itself", describe(callOf(c).Args[0]))
 		}
-		// nothing else non-deterministic in hostByHashing or hash
-		for _, f := range []*ssa.Function{hb, hf} {
+		// nothing non-deterministic in hostByHashing or hash, nor in the helpers and closures they are made of (the
+		// backends' own availability test is the policy's input, not part of the slot computation)
+		for _, f0 := range []*ssa.Function{hb, hf} {
 			pure := true
 			var bad []string
-			allInstrs(f, func(in ssa.Instruction) {
-				if c := callOf(in); c != nil {
-					n := calleeName(c)
-					switch {
-					case c.StaticCallee() == hf, strings.HasPrefix(n, "hash/fnv."), strings.HasPrefix(n, "builtin."), strings.HasPrefix(n, "log."):
-					case c.IsInvoke() && (c.Method.Name() == "Write" || c.Method.Name() == "Sum32") && strings.HasPrefix(c.Value.Type().String(), "hash."):
-					case strings.HasSuffix(n, "UpstreamHost).Available"):
-					default:
-						pure = false
-						bad = append(bad, n)
-					}
+			for _, f := range withHelpers(f0, 3) {
+				if rc := f.Signature.Recv(); rc != nil && strings.HasSuffix(derefType(rc.Type()).String(), "proxy.UpstreamHost") {
+					continue
 				}
-				if u, ok := in.(*ssa.UnOp); ok {
-					if g, ok := u.X.(*ssa.Global); ok && g.Pkg != nil && isModPkg(g.Pkg.Pkg.Path()) {
-						pure = false
-						bad = append(bad, "reads "+g.Name())
+				allInstrs(f, func(in ssa.Instruction) {
+					if c := callOf(in); c != nil {
+						n := calleeName(c)
+						callee := c.StaticCallee()
+						switch {
+						case callee != nil && callee.Pkg != nil && isModPkg(callee.Pkg.Pkg.Path()):
+						case callee != nil && callee.Pkg == nil: // synthetic wrappers, bound methods, closures
+						case c.IsInvoke() && (c.Method.Name() == "Write" || c.Method.Name() == "Sum32") && strings.HasPrefix(c.Value.Type().String(), "hash."):
+						case strings.HasPrefix(n, "hash/fnv."), strings.HasPrefix(n, "builtin."), strings.HasPrefix(n, "log."), strings.HasPrefix(n, "slices."), strings.HasPrefix(n, "strings."), strings.HasPrefix(n, "strconv."), strings.HasPrefix(n, "sort."), strings.HasPrefix(n, "fmt.Sprint"):
+						case n == "" && !c.IsInvoke(): // a call of a function value (the slot closure handed to a probing helper)
+						default:
+							pure = false
+							bad = append(bad, n)
+						}
 					}
-				}
-			})
-			r.Check(pure, "R8", "proxy."+f.Name()+"/deterministic", f.Pos(), "no clock, randomness or package state enters the choice of slot: equal keys give equal slots", bad...)
+					if u, ok := in.(*ssa.UnOp); ok {
+						if g, ok := u.X.(*ssa.Global); ok && g.Pkg != nil && isModPkg(g.Pkg.Pkg.Path()) {
+							pure = false
+							bad = append(bad, "reads "+g.Name())
+						}
+					}
+				})
+			}
+			r.Check(pure, "R8", "proxy."+f0.Name()+"/deterministic", f0.Pos(), "no clock, randomness or package state enters the choice of slot: equal keys give equal slots", bad...)
 		}
 		// hash(): what is written to the hasher is the parameter
 		for _, in := range findCalls(hf, func(in ssa.Instruction) bool {
